@@ -2,7 +2,7 @@ SPECIFICATION Spec
 CONSTANTS
   MaxPO = 2
   MaxPK = 2
-  MaxKO = 1
+  MaxKO = 0
   FixPO = 9
   MaxPos = 5
   Extra = 1
